@@ -394,6 +394,21 @@ def b_format(ex, v, spec=''):
         raise PyRaise(make_exc(type(e).__name__, str(e)))
 
 
+def b_iter(ex, x):
+    return iter(list(ex.iterate(x)))
+
+
+def b_next(ex, it, *default):
+    if not hasattr(it, '__next__'):
+        raise Unsupported(f'next() of {type(it).__name__}')
+    try:
+        return next(it)
+    except StopIteration:
+        if default:
+            return default[0]
+        raise PyRaise(make_exc('StopIteration'))
+
+
 def b_vars(ex, obj):
     obj = ex.concretize(obj)
     if isinstance(obj, Obj):
@@ -475,7 +490,7 @@ def b_getattr(ex, obj, name, *default):
 
 
 BUILTINS = {}
-for _n, _f in [('format', b_format), ('vars', b_vars), ('all', b_all), ('any', b_any), ('reversed', b_reversed), ('getattr', b_getattr), ('divmod', b_divmod),
+for _n, _f in [('iter', b_iter), ('next', b_next), ('format', b_format), ('vars', b_vars), ('all', b_all), ('any', b_any), ('reversed', b_reversed), ('getattr', b_getattr), ('divmod', b_divmod),
                ('len', b_len), ('isinstance', b_isinstance), ('int', b_int), ('float', b_float), ('round', b_round),
                ('bool', b_bool), ('str', b_str), ('bytes', b_bytes), ('bytearray', b_bytearray), ('range', b_range),
                ('min', b_min), ('max', b_max), ('sum', b_sum), ('sorted', b_sorted), ('list', b_list),
@@ -786,9 +801,17 @@ def m_str_upper(ex, s):
     return SStr(parts)
 
 
-def m_str_encode(ex, s, *a):
+def m_str_encode(ex, s, *a, **kw):
     if isinstance(s, str):
-        return s.encode(*a)
+        try:
+            return s.encode(*a, **kw)
+        except (UnicodeEncodeError, LookupError) as e:
+            raise PyRaise(make_exc(type(e).__name__, str(e)))
+    enc = (a[0] if a else kw.get('encoding', 'utf-8'))
+    errors = (a[1] if len(a) > 1 else kw.get('errors', 'strict'))
+    if not isinstance(enc, str) or enc.lower().replace('_', '-') not in ('utf-8', 'utf8') or errors != 'strict':
+        # any other codec or error handler can lose or change characters of an unknown text (or raise)
+        raise Unsupported(f'str.encode({enc!r}, errors={errors!r}) of a symbolic text')
     return EncodedStr(s)
 
 
@@ -912,7 +935,39 @@ def m_str_strip(ex, s, chars=None):
 
 
 def m_str_format(ex, s, *a, **kw):
-    raise Unsupported('str.format')
+    """'...{}...{name:spec}...'.format(...) with a concrete template: the same pieces an f-string gives."""
+    import string
+    from .sstr import fmt_value
+    if not isinstance(s, str):
+        raise Unsupported('str.format on a symbolic template')
+    out = ''
+    auto = 0
+    try:
+        pieces = list(string.Formatter().parse(s))
+    except ValueError as e:
+        raise PyRaise(make_exc('ValueError', str(e)))
+    for lit, field, spec, conv in pieces:
+        if lit:
+            out = sstr_concat(out, lit)
+        if field is None:
+            continue
+        if '{' in (spec or ''):
+            raise Unsupported('str.format with a nested format spec')
+        if field == '':
+            key = auto
+            auto += 1
+        elif field.isdigit():
+            key = int(field)
+        elif field.isidentifier():
+            key = field
+        else:
+            raise Unsupported(f'str.format field {field!r}')
+        try:
+            v = a[key] if isinstance(key, int) else kw[key]
+        except (IndexError, KeyError) as e:
+            raise PyRaise(make_exc(type(e).__name__, str(e)))
+        out = sstr_concat(out, fmt_value(ex, ex.concretize(v), spec or '', {None: -1, 'r': ord('r'), 's': ord('s'), 'a': ord('a')}[conv]))
+    return out
 
 
 STR_METHODS = {'lower': m_str_lower, 'upper': m_str_upper, 'encode': m_str_encode, 'join': m_str_join,
